@@ -18,6 +18,7 @@ import (
 	"fmt"
 	"math/rand"
 	"net/http"
+	"net/http/httptest"
 	"os"
 	"path/filepath"
 	"sort"
@@ -26,6 +27,7 @@ import (
 	"testing"
 	"time"
 
+	"github.com/labstack/echo/v4"
 	"github.com/lestrrat-go/jwx/v2/jwa"
 	"github.com/lestrrat-go/jwx/v2/jwt"
 	"github.com/nuts-foundation/go-did/vc"
@@ -58,6 +60,9 @@ func c05Outcome(err error, table map[string]string) string {
 		if strings.Contains(desc, frag) {
 			return out
 		}
+	}
+	if strings.Contains(err.Error(), "injected store failure") {
+		return "store-error"
 	}
 	return "other:" + desc
 }
@@ -134,25 +139,47 @@ func c05S2SInit(t *testing.T, tc *testCtx) {
 	c05S2S.credential = test.ValidNutsOrganizationCredential(t)
 	c05S2S.presentations = map[string]vc.VerifiablePresentation{}
 	tc.policy.EXPECT().PresentationDefinitions(gomock.Any(), gomock.Any()).Return(c05S2S.mapping, nil).AnyTimes()
+	tc.subjectManager.EXPECT().Exists(gomock.Any(), issuerSubjectID).Return(true, nil).AnyTimes()
 	tc.vcVerifier.EXPECT().VerifyVP(gomock.Any(), true, true, gomock.Any()).DoAndReturn(
 		func(vp vc.VerifiablePresentation, _ bool, _ bool, _ *time.Time) ([]vc.VerifiableCredential, error) {
 			return vp.VerifiableCredential, nil
 		}).AnyTimes()
 }
 
-// one signed-looking JSON-LD presentation per nonce (the signature check is the mocked verifier's)
-func c05S2SPresentation(nonce string) vc.VerifiablePresentation {
-	if vp, ok := c05S2S.presentations[nonce]; ok {
+// one signed-looking presentation per (format, nonce); the signature check is the mocked verifier's.
+// format "": JSON-LD with proof.nonce; "jwt": JWT with nonce claim
+func c05S2SPresentation(format, nonce string) vc.VerifiablePresentation {
+	if vp, ok := c05S2S.presentations[format+"|"+nonce]; ok {
 		return vp
 	}
 	subjectDID, _ := c05S2S.credential.SubjectDID()
-	vp := test.CreateJSONLDPresentation(c05S2S.t, *subjectDID, test.LDProofVisitor(func(p *proof.LDProof) {
-		p.Domain = &issuerClientID
-		n := nonce
-		p.Nonce = &n
-	}), c05S2S.credential)
-	c05S2S.presentations[nonce] = vp
+	var vp vc.VerifiablePresentation
+	if format == "jwt" {
+		vp, _ = test.CreateJWTPresentation(c05S2S.t, *subjectDID, func(token jwt.Token) {
+			_ = token.Set(jwt.AudienceKey, issuerClientID)
+			_ = token.Set("nonce", nonce)
+		}, c05S2S.credential)
+	} else {
+		vp = test.CreateJSONLDPresentation(c05S2S.t, *subjectDID, test.LDProofVisitor(func(p *proof.LDProof) {
+			p.Domain = &issuerClientID
+			n := nonce
+			p.Nonce = &n
+		}), c05S2S.credential)
+	}
+	c05S2S.presentations[format+"|"+nonce] = vp
 	return vp
+}
+
+// the presentation of an OpenID4VP authorization response: format "": LD-proof challenge, "ldnonce": LD-proof nonce
+// (the fallback of validatePresentationNonce), "jwt": JWT nonce claim
+func c05NoncePresentation(format, nonce string) vc.VerifiablePresentation {
+	switch format {
+	case "ldnonce":
+		return c05LDPresentation("nonce", nonce)
+	case "jwt":
+		return c05S2SPresentation("jwt", nonce)
+	}
+	return c05LDPresentation("challenge", nonce)
 }
 
 func c05IamLevel(base *Wrapper) storage.VerifC05Level {
@@ -168,18 +195,40 @@ func c05IamLevel(base *Wrapper) storage.VerifC05Level {
 					Scope: "scope", OpenID4VPVerifier: &PEXConsumer{}, PKCEParams: pkce})
 			case "reqobj":
 				u := w.subjectToBaseURL(i.Val)
-				err = w.authzRequestObjectStore().Put(i.ID, jarRequest{Claims: oauthParameters{"a": "b"}, Client: u.String(), RequestURIMethod: "get"})
+				method := "get"
+				if i.Fmt == "post" {
+					method = "post"
+				}
+				err = w.authzRequestObjectStore().Put(i.ID, jarRequest{Claims: oauthParameters{"a": "b"}, Client: u.String(), RequestURIMethod: method})
 			case "vpnonce":
 				err = w.oauthNonceStore().Put(i.ID, i.Val)
 			case "s2s":
 				err = w.s2sNonceStore().Put(i.ID, true)
 			case "jti":
 				err = w.useNonceOnceStore().Put(i.ID, struct{}{})
+			case "redirect":
+				err = w.userRedirectStore().Put(i.ID, RedirectSession{SubjectID: holderSubjectID, AccessTokenRequest: RequestUserAccessTokenRequestObject{
+					SubjectID: holderSubjectID, Body: &RequestUserAccessTokenJSONRequestBody{Scope: "first second", AuthorizationServer: "https://example.com/oauth2/verifier",
+						PreauthorizedUser: &UserDetails{Id: "test", Name: "John Doe", Role: "Caregiver"}}}})
 			default:
 				err = fmt.Errorf("kind %s is not driven at iam level", i.Kind)
 			}
 			if err != nil {
 				return nil, err
+			}
+		}
+		// the OpenID4VP response endpoint finds its session through the state parameter
+		for _, state := range []string{"clientA", "clientB"} {
+			if err := w.oauthClientStateStore().Put(state, OAuthSession{OwnSubject: &verifierSubject, RedirectURI: "https://example.com/cb", ClientState: state},
+				storage.WithTTL(24*time.Hour)); err != nil { // outlives the nonce, so the TTL replays observe the nonce and not the session
+				return nil, err
+			}
+		}
+		storedMethod := map[string]string{}
+		for _, i := range scn.Init {
+			storedMethod[i.ID] = "get"
+			if i.Fmt == "post" {
+				storedMethod[i.ID] = "post"
 			}
 		}
 		httpCtx := context.WithValue(context.Background(), httpRequestContextKey{}, &http.Request{Header: http.Header{}})
@@ -201,14 +250,24 @@ func c05IamLevel(base *Wrapper) storage.VerifC05Level {
 					if r.Pre {
 						body.CodeVerifier = &verifier
 					}
-					_, err := w.handleAccessTokenRequest(httpCtx, body)
+					// through the token endpoint's entry point (grant type dispatch)
+					body.GrantType = oauth.AuthorizationCodeGrantType
+					_, err := w.HandleTokenRequest(httpCtx, HandleTokenRequestRequestObject{SubjectID: verifierSubject, Body: &body})
 					return c05Outcome(err, map[string]string{"missing code_verifier": "missing-param", "missing client_id": "missing-param",
 						"invalid authorization code": "not-found", "client_id does not match": "mismatch", "invalid code_verifier": "post-check"})
 				})
 			case "reqobj":
 				fns = append(fns, func() string {
 					var err error
-					if r.Post {
+					// Post: the request uses the request_uri_method the object was stored for (get or post), else the other one
+					method := storedMethod[r.ID]
+					if method == "" {
+						method = "get"
+					}
+					if !r.Post {
+						method = map[string]string{"get": "post", "post": "get"}[method]
+					}
+					if method == "get" {
 						_, err = w.RequestJWTByGet(context.Background(), RequestJWTByGetRequestObject{SubjectID: r.Want, Id: r.ID})
 					} else {
 						_, err = w.RequestJWTByPost(context.Background(), RequestJWTByPostRequestObject{SubjectID: r.Want, Id: r.ID})
@@ -217,21 +276,27 @@ func c05IamLevel(base *Wrapper) storage.VerifC05Level {
 						"used request_uri_method": "post-check"})
 				})
 			case "vpnonce":
+				// through the OpenID4VP response endpoint; the nonce travels as LD-proof challenge, LD-proof nonce or JWT nonce claim
 				fns = append(fns, func() string {
-					vps := []vc.VerifiablePresentation{c05LDPresentation("challenge", r.ID)}
+					raw := c05NoncePresentation(r.Fmt, r.ID).Raw()
 					if !r.Pre {
-						vps = append(vps, c05LDPresentation("challenge", "another-nonce"))
+						raw = "[" + raw + "," + c05NoncePresentation(r.Fmt, "another-nonce").Raw() + "]"
 					}
-					err := w.validatePresentationNonce(vps, r.Want)
-					return c05Outcome(err, map[string]string{"invalid or missing nonce/challenge": "missing-param", "invalid or expired session": "not-found",
-						"invalid nonce/state": "mismatch"})
+					state := r.Want
+					_, err := w.handleAuthorizeResponseSubmission(context.Background(), HandleAuthorizeResponseRequestObject{SubjectID: verifierSubject,
+						Body: &HandleAuthorizeResponseFormdataRequestBody{State: &state, VpToken: &raw}})
+					// the nonce check is followed by the check for the presentation_submission parameter, which these requests leave out
+					return c05Outcome(err, map[string]string{"missing presentation_submission": "ok", "invalid or missing nonce/challenge": "missing-param",
+						"invalid or expired session": "not-found", "invalid nonce/state": "mismatch"})
 				})
 			case "s2s":
 				// the whole vp_token-bearer token request; client_id and scope are request parameters that the signature of
 				// the presentation does not cover: Want/Post select variants of them
 				fns = append(fns, func() string {
-					_, err := w.handleS2SAccessTokenRequest(httpCtx, c05ClientID(r.Want), issuerSubjectID, c05Scope(r.Post), c05S2S.submissionJSON, c05S2SPresentation(r.ID).Raw())
-					return c05Outcome(err, map[string]string{"presentation nonce has already been used": "used"})
+					cid, scope, sub, raw := c05ClientID(r.Want), c05Scope(r.Post), c05S2S.submissionJSON, c05S2SPresentation(r.Fmt, r.ID).Raw()
+					_, err := w.HandleTokenRequest(httpCtx, HandleTokenRequestRequestObject{SubjectID: issuerSubjectID, Body: &HandleTokenRequestFormdataRequestBody{
+						GrantType: oauth.VpTokenGrantType, ClientId: &cid, Scope: &scope, PresentationSubmission: &sub, Assertion: &raw}})
+					return c05Outcome(err, map[string]string{"presentation nonce has already been used": "used", "unable to store nonce": "store-error"})
 				})
 			case "jti":
 				d := c05SignedDPoP(r.ID)
@@ -239,7 +304,7 @@ func c05IamLevel(base *Wrapper) storage.VerifC05Level {
 					resp, err := w.ValidateDPoPProof(nil, ValidateDPoPProofRequestObject{Body: &ValidateDPoPProofJSONRequestBody{
 						DpopProof: d.proof, Method: "POST", Thumbprint: d.thumbprint, Token: "token", Url: "https://server.example.com/token"}})
 					if err != nil {
-						return "other:" + err.Error()
+						return c05Outcome(err, nil)
 					}
 					v := resp.(ValidateDPoPProof200JSONResponse)
 					if v.Valid {
@@ -252,6 +317,17 @@ func c05IamLevel(base *Wrapper) storage.VerifC05Level {
 						return "other:" + *v.Reason
 					}
 					return "other"
+				})
+			case "redirect":
+				// the real landing page handler; once the token is accepted it goes on to the user session (none here: an error)
+				fns = append(fns, func() string {
+					rec := httptest.NewRecorder()
+					ectx := echo.New().NewContext(httptest.NewRequest(http.MethodGet, "/oauth2/holder/user?token="+r.ID, nil), rec)
+					err := w.handleUserLanding(ectx)
+					if err == nil && rec.Code == http.StatusForbidden {
+						return "not-found"
+					}
+					return "ok"
 				})
 			default:
 				return nil, fmt.Errorf("kind %s is not driven at iam level", r.Kind)
@@ -277,13 +353,17 @@ func c05Variants(kind, id string) []storage.VerifC05Req {
 		v = append(v, storage.VerifC05Req{Kind: kind, ID: id, Want: "clientB", Pre: true, Post: true},
 			storage.VerifC05Req{Kind: kind, ID: id, Want: "clientA", Pre: true, Post: false})
 	case "vpnonce":
+		// also: the nonce carried as LD-proof nonce (fallback) and as JWT nonce claim
 		v = append(v, storage.VerifC05Req{Kind: kind, ID: id, Want: "clientB", Pre: true, Post: true},
-			storage.VerifC05Req{Kind: kind, ID: id, Want: "clientA", Pre: false, Post: true})
+			storage.VerifC05Req{Kind: kind, ID: id, Want: "clientA", Pre: false, Post: true},
+			storage.VerifC05Req{Kind: kind, ID: id, Want: "clientA", Pre: true, Post: true, Fmt: "ldnonce"},
+			storage.VerifC05Req{Kind: kind, ID: id, Want: "clientA", Pre: true, Post: true, Fmt: "jwt"})
 	case "s2s":
-		// the same presentation with other unsigned request parameters: client_id (also only a trailing slash), scope
+		// the same nonce with other unsigned request parameters: client_id (also only a trailing slash), scope; and in a JWT presentation
 		v = append(v, storage.VerifC05Req{Kind: kind, ID: id, Want: "clientB", Pre: true, Post: true},
 			storage.VerifC05Req{Kind: kind, ID: id, Want: "clientA/", Pre: true, Post: true},
-			storage.VerifC05Req{Kind: kind, ID: id, Want: "clientA", Pre: true, Post: false})
+			storage.VerifC05Req{Kind: kind, ID: id, Want: "clientA", Pre: true, Post: false},
+			storage.VerifC05Req{Kind: kind, ID: id, Want: "clientA", Pre: true, Post: true, Fmt: "jwt"})
 	}
 	return v
 }
@@ -337,7 +417,7 @@ func TestVerifC05(t *testing.T) {
 		}
 	}
 
-	kinds := []string{"code", "reqobj", "vpnonce", "s2s", "jti"}
+	kinds := []string{"code", "reqobj", "vpnonce", "redirect", "s2s", "jti"}
 	var scns, three []*storage.VerifC05Scn
 	for _, k := range kinds {
 		vs := c05Variants(k, "s1")
@@ -364,6 +444,39 @@ func TestVerifC05(t *testing.T) {
 		if len(vs) > 1 {
 			three = append(three, c05Scn(k+"-3-mixed", "mem", init, vs[0], vs[rng.Intn(len(vs))], vs[1+rng.Intn(len(vs)-1)]))
 		}
+	}
+	// store faults: the Get / Set / Delete of one request fails; nobody may be honoured because of it (fail closed)
+	for _, k := range kinds {
+		vs := c05Variants(k, "s1")
+		init := []storage.VerifC05Init{{Kind: k, ID: "s1", Val: "clientA"}}
+		mark := k == "s2s" || k == "jti"
+		faults := []string{"get", "del"}
+		if mark {
+			faults = []string{"get", "set"}
+		}
+		f := faults[rng.Intn(2)]
+		if thorough {
+			f = faults[0]
+		}
+		for {
+			bad := vs[0]
+			bad.Fail = f
+			if mark {
+				scns = append(scns, c05Scn(k+"-2-fault-"+f, "mem", nil, bad, vs[rng.Intn(len(vs))]))
+			} else {
+				scns = append(scns, c05Scn(k+"-2-fault-"+f, "mem", init, bad, vs[rng.Intn(len(vs))]))
+			}
+			if !thorough || f == faults[1] {
+				break
+			}
+			f = faults[1]
+		}
+	}
+	// a request object stored for request_uri_method=post, fetched through RequestJWTByPost (and wrongly through ...ByGet)
+	{
+		vs := c05Variants("reqobj", "s1")
+		init := []storage.VerifC05Init{{Kind: "reqobj", ID: "s1", Val: "clientA", Fmt: "post"}}
+		scns = append(scns, c05Scn("reqobj-2-post", "mem", init, vs[0], vs[rng.Intn(len(vs))]))
 	}
 	if thorough {
 		scns = append(scns, three...)
@@ -458,7 +571,7 @@ func c05Window(w *storage.VerifC05Writer, base *Wrapper, validity, skew, first, 
 	table := map[string]string{"presentation nonce has already been used": "used"}
 	httpCtx := context.WithValue(context.Background(), httpRequestContextKey{}, &http.Request{Header: http.Header{}})
 	present := func(client string) string {
-		_, err := wr.handleS2SAccessTokenRequest(httpCtx, c05ClientID(client), issuerSubjectID, c05Scope(true), c05S2S.submissionJSON, c05S2SPresentation(nonce).Raw())
+		_, err := wr.handleS2SAccessTokenRequest(httpCtx, c05ClientID(client), issuerSubjectID, c05Scope(true), c05S2S.submissionJSON, c05S2SPresentation("", nonce).Raw())
 		return c05Outcome(err, table)
 	}
 	n1 := present("clientA")
